@@ -7,6 +7,7 @@ import (
 	"fmt"
 	"go/types"
 	"math"
+	"os"
 	"strings"
 
 	"golang.org/x/tools/go/ssa"
@@ -214,6 +215,15 @@ func (p *Path) prim(fn *ssa.Function, args []Value) Value {
 		return p.predVar(name, x)
 	case "vConcretizeStr":
 		return p.concretizeStr(args[0])
+	case "vSchedules":
+		if p.sched != nil {
+			panic(unsupported("vSchedules must be called before the first goroutine / channel is created"))
+		}
+		p.schedBudget = int(concreteInt(args[0], "vSchedules budget"))
+		if e := p.w.eng.schedBudget; e >= 0 && os.Getenv("POLYSYM_SCHED_BUDGET") != "" {
+			p.schedBudget = e
+		}
+		return nil
 	case "vSeed":
 		return int64(0)
 	case "vDepth":
